@@ -532,3 +532,35 @@ def handlers(ctx, prog):
     be = ctx.fa(f"{IF}.IterativeFinder.search_exhausted")
     ok = any(norm_text(x) == "self.iteration_queue.put_nowait(None)" and not R.atomic_facts_at(be, x)[0] for x in be.stmts(ast.Expr))
     ctx.ob("C12-D4/END", ok, be.site(), "an exhausted search always queues the end marker (the async iterator stops on it instead of waiting forever)", func=be.fi.qualname, key="C12-D4/END|exhausted")
+    # --- request dispatch
+    hr = ctx.fa("lbry.dht.protocol.protocol.KademliaProtocol._handle_rpc")
+    sc, msg = hr.fi.params()[1:3]
+    mv = ["method not in [b'ping', b'store', b'findNode', b'findValue']", f"{msg}.args", f"isinstance({msg}.args[-1], dict)", f"b'protocolVersion' in {msg}.args[-1]",
+          "method == b'ping'", "method == b'store'", "method == b'findNode'", "method == b'findValue'", f"{sc}.node_id != self.node_id"]
+    R.refusal_table(ctx, "C12-D6/DISPATCH", hr, [("Invalid method", "method not in [b'ping', b'store', b'findNode', b'findValue']")], "request dispatch", extra_terms=mv)
+    R.effect_table(ctx, "C12-D6/DISPATCH", hr, mv, [
+        (f"method = {msg}.method", "", "the method is the request's"),
+        (f"args, kwargs = (tuple({msg}.args[:-1]), {msg}.args[-1])", f"{msg}.args and isinstance({msg}.args[-1], dict) and b'protocolVersion' in {msg}.args[-1]",
+         "new-style arguments: everything but the trailing dict is positional, the dict carries the keywords (page)"),
+        (f"args, kwargs = self._migrate_incoming_rpc_args({sc}, {msg}.method, *{msg}.args)", "", "old-style arguments are migrated"),
+        ("result = self.node_rpc.ping()", "method == b'ping'", "ping is answered by the ping RPC"),
+        ("blob_hash, token, port, original_publisher_id, age = args[:5]", "not method == b'ping' and method == b'store'", "store takes its five positional arguments"),
+        (f"result = self.node_rpc.store({sc}, blob_hash, token, port)", "not method == b'ping' and method == b'store'", "…and records the sender for that blob hash, token and port"),
+        ("key = args[0]", "not method == b'ping' and not method == b'store'", "lookups take the key first"),
+        ("page = kwargs.get(PAGE_KEY, 0)", "not method == b'ping' and not method == b'store'", "…and the page keyword (0 by default)"),
+        (f"result = self.node_rpc.find_node({sc}, key)", "method == b'findNode'", "findNode is answered by the node lookup"),
+        (f"result = self.node_rpc.find_value({sc}, key, page)", "not method == b'findNode'", "findValue by the value lookup, with the requested page"),
+        (f"self.send_response({sc}, ResponseDatagram(RESPONSE_TYPE, {msg}.rpc_id, self.node_id, result))", "", "the result goes back under the request's rpc id and this node's id"),
+    ], "request dispatch: ")
+    kp = ctx.fa("lbry.dht.peer.KademliaPeer.__post_init__")
+    R.refusal_table(ctx, "C12-D5/VALID", kp, [
+        ("invalid node_id", "self._node_id is not None and not len(self._node_id) == constants.HASH_LENGTH"),
+        ("invalid udp port", "self.udp_port is not None and not 1024 <= self.udp_port <= 65535"),
+        ("invalid tcp port", "self.tcp_port is not None and not 1024 <= self.tcp_port <= 65535"),
+        ("invalid ip address", "not is_valid_public_ipv4(self.address, self.allow_localhost)"),
+    ], "peer validator")
+    mk = ctx.fa("lbry.dht.peer.make_kademlia_peer")
+    r = R.single_return_value(mk)
+    nid, ad_, up, tp, al = mk.fi.params()[:5]
+    ok = r is not None and norm_text(r.value) == f"KademliaPeer({ad_}, {nid}, {up}, tcp_port={tp}, allow_localhost={al})" and is_const(mk.node.args.defaults[-1], False)
+    ctx.ob("C12-D5/VALID", ok, mk.site(), "make_kademlia_peer builds the validated peer from exactly its arguments (localhost not allowed by default)", func=mk.fi.qualname)
